@@ -74,13 +74,13 @@ PROPERTIES = {
              'do_spawn is true only if spawned+1 < max; max <= n for Max(n); Max(1) reaches no runner entry. '
              'Not decided: OS scheduling (thread::scope semantics, T2).'),
     'C09': P('sequential mode is identical to std iterator execution',
-             ['S1', 'S6', 'C09-SEQSHAPE', 'C09-EMPTY', 'S3', 'S7', 'C12-STORE', 'C09-TIES', 'C12-NOSET'],
+             ['S1', 'S6', 'C09-SEQSHAPE', 'C09-EMPTY', 'S3', 'S7', 'C12-STORE', 'C09-TIES', 'C12-NOSET', 'C09-SUMID'],
              STATIC + 'Decided: num_threads(1) dispatches to the sequential kernel on every route; sequential kernels are in-order, lazy / '
              'left-fold std chains rooted at into_seq_iter with closures in declaration order and no chunk size; min*/max* wrappers break ties '
              'like std (first minimum, last maximum); no stage is re-parameterised by the library. '
              'Not decided: into_seq_iter order (T3).'),
     'C10': P('short-circuit terminals stop consuming input once a match is known',
-             ['C10-SIGNAL', 'C10-NOPULL', 'C10-LAZYSEQ', 'C10-STOPSPAWN', 'C10-CHUNKDEP', 'C02-FIRST', 'S4'],
+             ['C10-SIGNAL', 'C10-NOPULL', 'C10-LAZYSEQ', 'C10-STOPSPAWN', 'C10-CHUNKDEP', 'C02-FIRST', 'S4', 'C16'],
              STATIC + 'Decided: every path of a find task that may return a match raised skip_to_end first; no pull is reachable after a '
              'match; sequential find kernels are lazy; the spawn loop stops when the source is exhausted. '
              'Not decided: liveness under a fair scheduler (T3: skip_to_end makes later pulls return None).'),
@@ -108,7 +108,7 @@ PROPERTIES = {
              '(a dead worker advances nothing) and no blocking primitive is called; no chain closure is moved into the serialised source of a '
              'concurrent iterator. Not decided: thread::scope re-raises (T2).'),
     'C15': P('parameters never change a result or make a computation fail',
-             ['C15-OBLIG', 'C15-CLAMP', 'C15-ALLOC', 'C15-CHUNKCAP', 'C15-STACK'],
+             ['C15-OBLIG', 'C15-CLAMP', 'C15-ALLOC', 'C15-CHUNKCAP', 'C15-CHUNKCAP-U', 'C15-STACK'],
              STATIC + 'Decided: every panic site (overflow/div-by-zero assertion, expect, assert) of the parameter-resolution slice that '
              'depends on the configuration is discharged by a dominating guard, a constructor invariant, an arithmetic lemma or a stated '
              'assumption; every size handed to an allocating API and, for sources of known length, every resolved chunk size is bounded by the '
